@@ -1014,3 +1014,20 @@ package httpserver
 //@   loop 1 invariant config != nil ==> exists(k, 0, #i, config == c[k] && c[k].Match(r))
 //@   loop 1 invariant config == nil ==> forall(k, 0, #i, !c[k].Match(r))
 //@   loop 1 invariant forall(k, 0, #i, c[k].Match(r) ==> (config != nil && len(config.BasePath()) >= len(c[k].BasePath())))
+
+//@ unit ip_mask frames=on props=C20 verify_pure=on filter=`httpserver\.Logger\)\.MaskIP$`
+//@ // C20 "accurate" for the logged client address when `ipmask` is configured: an address that does not parse is logged as
+//@ // given; an IPv4 address is masked with the IPv4 mask, any other with the IPv6 mask - never the other way round
+//@ extern net.ParseIP
+//@   pure
+//@ extern (net.IP).To4
+//@   pure
+//@ extern (net.IP).Mask
+//@   pure
+//@ extern (net.IP).String
+//@   pure
+//@ func (Logger).MaskIP
+//@   pure
+//@   ensures [unparsable_logged_as_given] net.ParseIP(ip) == nil ==> result == ip
+//@   ensures [v4_with_the_v4_mask] (net.ParseIP(ip) != nil && net.ParseIP(ip).To4() != nil) ==> result == net.ParseIP(ip).Mask(l.V4ipMask).String()
+//@   ensures [others_with_the_v6_mask] (net.ParseIP(ip) != nil && net.ParseIP(ip).To4() == nil) ==> result == net.ParseIP(ip).Mask(l.V6ipMask).String()
